@@ -43,7 +43,7 @@ def run_impl(lines):
         if m == 103:
             lint.append(i)
             continue
-        if m in (20, 120):
+        if m in (20, 120, 220, 221, 222):
             layp.append(i)
             continue
         groups["ir" if m == 1 else "grp" if m == 4 else "rt" if 10 <= m <= 19 else "prog"].append(i)
@@ -420,7 +420,15 @@ def layout_probe(lines):
     ti = 0
     for k, l in enumerate(lines):
         hdr, a, b = _split_rows(l)
-        if hdr[0] == 20:
+        if hdr[0] == 220:      # the REAL VerifyLayout::and on a pair of verdicts
+            calls.append("    p(v(%d).and(v(%d)));" % (a[0][0], a[0][1]))
+        elif hdr[0] == 221:    # is_valid_strict + 2 * is_valid_relaxed
+            calls.append("    println!(\"{}\", v(%d).is_valid_strict() as i64 + 2 * (v(%d).is_valid_relaxed() as i64));" % (a[0][0], a[0][0]))
+        elif hdr[0] == 222:    # compare_layouts with missing descriptions
+            sa = "Some(<Pod as StableAbi>::LAYOUT)" if a[0][0] else "None"
+            sb = "Some(<Pod as StableAbi>::LAYOUT)" if a[0][1] else "None"
+            calls.append("    p(compare_layouts(%s, %s));" % (sa, sb))
+        elif hdr[0] == 20:
             for side in ("a", "b"):
                 body = re.sub(r"pub trait T\d+ ", "pub trait Tr ", rendered[ti])
                 ti += 1
@@ -437,7 +445,8 @@ def layout_probe(lines):
             "use abi_stable::StableAbi;\n#[repr(C)]\n#[derive(Clone, Copy, StableAbi)]\npub struct Pod { pub a: u8, pub b: u32, pub c: i64 }\n"
             + "".join("#[cglue_trait]\npub trait %s { fn f%d(&self) -> u32; }\n" % (n, i) for i, n in enumerate(pool)) +
             "fn c(x: &VerifyLayout) -> i64 { match x { VerifyLayout::Valid => 0, VerifyLayout::Invalid => 1, VerifyLayout::Unknown => 2 } }\n"
-            "fn p(x: VerifyLayout) { println!(\"{}\", c(&x)); }\n")
+            "fn p(x: VerifyLayout) { println!(\"{}\", c(&x)); }\n"
+            "fn v(i: i64) -> VerifyLayout { match i { 0 => VerifyLayout::Valid, 1 => VerifyLayout::Invalid, _ => VerifyLayout::Unknown } }\n")
     main = "fn main() {\n" + "\n".join(calls) + "\n}\n"
     open(os.path.join(d, "src", "main.rs"), "w").write(head + "".join(mods) + main)
     open(os.path.join(d, "Cargo.toml"), "w").write('[package]\nname = "layprobe"\nversion = "0.0.0"\nedition = "2018"\n\n[workspace]\n\n[dependencies]\ncglue = { path = "/repo/cglue", features = ["layout_checks"] }\nabi_stable = "0.10"\n\n[profile.dev]\nopt-level = 0\ndebug = false\n')
